@@ -597,12 +597,42 @@ func (root *Root) resolveField(
 		var fv interface{} // field value
 		fv, ea2 = root.resolve(attr, vars, field, ft, depth)
 		ea = append(ea, ea2...)
+		if prev, has := result[field.key()]; has {
+			// Selections that share a response key are merged, not replaced.
+			fv = mergeValues(prev, fv)
+		}
 		result[field.key()] = fv
 	}
 	if depth < MaxResolveDepth {
 		Errors(ea).in(field.key())
 	}
 	return
+}
+
+// mergeValues merges the results of two selections with the same response
+// key. Objects are merged key by key and lists element by element.
+func mergeValues(prev, next interface{}) interface{} {
+	switch tp := prev.(type) {
+	case map[string]interface{}:
+		if tn, ok := next.(map[string]interface{}); ok {
+			for k, v := range tn {
+				if pv, has := tp[k]; has {
+					tp[k] = mergeValues(pv, v)
+				} else {
+					tp[k] = v
+				}
+			}
+			return tp
+		}
+	case []interface{}:
+		if tn, ok := next.([]interface{}); ok && len(tn) == len(tp) {
+			for i := range tp {
+				tp[i] = mergeValues(tp[i], tn[i])
+			}
+			return tp
+		}
+	}
+	return next
 }
 
 func (root *Root) addError(f *Field, ea []error, err error) []error {
